@@ -78,6 +78,32 @@ def first_match_loop(func, loop: ast.For):
       leaves = [x for x in reach if x not in loop_nodes and x is not head and x.kind != 'raise']
       if leaves:
         return False, 'a matching item can leave the predicate loop without being stored (L%d)' % t.line, {}
+  # no other path puts an item into one of the groups without asking the predicates (e.g. a cached shortcut)
+  roots = set()
+  for s in stores + group_stores(loop.orelse):
+    r = s.func.value if isinstance(s, ast.Call) else [t for t in s.targets if isinstance(t, ast.Subscript)][0].value
+    while isinstance(r, (ast.Subscript, ast.Attribute)):
+      r = r.value
+    if isinstance(r, ast.Name):
+      roots.add(r.id)
+  outer = None
+  for a in astu.ancestors(loop):
+    if isinstance(a, (ast.For, ast.While)):
+      outer = a
+      break
+    if isinstance(a, astu.FUNC_TYPES):
+      break
+  if outer is not None:
+    inside = {id(x) for x in ast.walk(loop)}
+    for s in group_stores(outer.body):
+      if id(s) in inside:
+        continue
+      r = s.func.value if isinstance(s, ast.Call) else [t for t in s.targets if isinstance(t, ast.Subscript)][0].value
+      while isinstance(r, (ast.Subscript, ast.Attribute)):
+        r = r.value
+      if isinstance(r, ast.Name) and r.id in roots - lvars0:
+        return False, ('`%s` (L%d) puts an item into a group without evaluating the predicates for it: the group of an item must be decided by the first matching '
+                       'predicate for *that* item (a per-type / cached shortcut is wrong for path- or tag-dependent filters)' % (astu.short(s, 70), s.lineno)), {}
   info = {'stores': [astu.short(s) for s in stores], 'else': 'none'}
   if loop.orelse:
     es = group_stores(loop.orelse)
